@@ -298,7 +298,7 @@ def oracle_until_failed(case, lines, runner=None):
     if runner is None:
         return []
     for n in runner.notes:
-        if n[0] == 'until-event' and n[1] and n[2] is False and not n[4]:
+        if n[0] == 'until-event' and n[1] and n[2] is False and not n[4] and not n[6]:
             return [{'what': f'run(until=e{n[5]}) returned normally although e{n[5]} failed and no waiter handled the failure',
                      'signature': 'c02-until-failed-returned'}]
     return []
